@@ -77,7 +77,7 @@ def path_for(tpl, k):
     return t
 
 
-def gen_plan(ch):
+def gen_plan(ch, deep=False):
     n_routes = 3 + ch.draw(6, 'n_routes')
     idx = list(range(len(TEMPLATES)))
     routes = []
@@ -86,7 +86,7 @@ def gen_plan(ch):
         routes.append(i)
     routes.sort()
     n_mw = ch.draw(3, 'n_mw')
-    n_req = 2 + ch.draw(2, 'n_req')
+    n_req = 2 + ch.draw(3 if deep else 2, 'n_req')
     reqs = []
     conv_routes = [i for i in routes if ':' in TEMPLATES[i][0]]
     same_route = None
@@ -452,7 +452,7 @@ def run_threads(ctx, plan):
 
     # location-based pre-emption triggers: "thread t, k-th time at file:line",
     # drawn from t's solo trace with weights favouring lock boundaries and the router
-    d = ch.weighted([1, 3, 3, 2, 2], 'n_preempt')
+    d = ch.weighted([1, 3, 3, 2, 2, 1, 1] if ctx.tier == 'thorough' else [1, 3, 3, 2, 2], 'n_preempt')
     triggers = {}
     chosen = []
     for _ in range(d):
@@ -709,7 +709,7 @@ def run_tasks(ctx, plan):
 def run(ctx):
     ch = ctx.ch
     mode = ch.draw(2, 'mode')     # 0 threads (WSGI), 1 tasks (ASGI)
-    plan = gen_plan(ch)
+    plan = gen_plan(ch, ctx.tier == 'thorough')
     for r in plan['reqs']:
         tpl, kind = TEMPLATES[r['route']]
         if kind.startswith('error'):
